@@ -175,6 +175,15 @@ CLAIMED = {
          "compilation (garbage collection of engines, diagnostics replay) is not decided.",
          "Trusted: rustc MIR; syn; dependencies lists are complete.",
          "DESIGN.md §3 C26"),
+ "C27": ("E-SW", "other", "pairing (acquire/release) rule over every std function that switches a panic flag off; guard-before-use rule on index parameters of Vec / Bytes; guard-presence SPEC on the U128 arithmetic impls (Sway tokenizer)",
+         "Decides three discipline clauses behind 'operations documented to revert do revert, and all others do not': every std function that "
+         "calls disable_panic_on_overflow / disable_panic_on_unsafe_math keeps the prior flags and restores them with set_flags on every path "
+         "(top-level restore, each early return preceded by a restore), so later arithmetic in the caller still reverts; every Vec / Bytes method "
+         "taking an index does its pointer arithmetic only after the documented bounds check (assert, or None for the Option API; *_unchecked "
+         "exempt); the U128 Add/Subtract/Multiply/Divide/Mod impls assert their overflow / zero-divisor case under a panic-flag query. Agreement of "
+         "results of collections and wide arithmetic with reference models is NOT decided.",
+         "Trusted: rules/lib/sw.py tokenizer; std::flags primitives; assert/revert abort.",
+         "DESIGN.md §9.2 C27"),
  "C28": ("E-SW", "other", "address-provenance rule over every storage-primitive call site of the std storage collections (Sway tokenizer, let-resolution): who-may-address (never self.slot), sibling agreement of all methods on the two slot derivations, offset provenance, key-helper SPEC",
          "Decides only the slot-derivation agreement behind the statement, for the default build: no StorageVec / StorageMap / StorageBytes / "
          "StorageString method addresses storage through the parent's slot; every primitive call takes its slot from the collection's header "
@@ -211,7 +220,6 @@ NOT_APPLICABLE = {
  "C02": "O0≡O1 is a differential over executions; no static clause beyond the per-pass/per-table clauses claimed under C03/C07.",
  "C18": "Idempotence f(f(x))=f(x) depends on width heuristics and comment placement; no necessary structural clause exists.",
  "C17": "Panic-freedom of the whole compile pipeline: the cone of compile_to_asm has thousands of unwrap/expect/index/unreachable sites whose unreachability rests on type-checker invariants not visible in the shape of the code; the local-guard discharge that decides C16/C21/C23 leaves them open, and a reviewed-site table of that size would be a frozen list, not a decision.",
- "C27": "Agreement of std collections / wide arithmetic with reference models quantifies over run-time histories and values of Sway library code.",
 }
 PENDING = "check not built yet in this round (design in DESIGN.md §3); not claimed until it runs clean on the unchanged tree"
 
